@@ -951,7 +951,7 @@ func (ev *evaluator) evalCall(x *ECall) SV {
 		a, _ := ev.evalTerm(x.Args[0])
 		b, _ := ev.evalTerm(x.Args[1])
 		return SV{app(SBool, "foldEq", a, b), boolT}
-	case "sent", "closed":
+	case "sent", "closed", "recvd":
 		key := ""
 		switch a := x.Args[0].(type) {
 		case *EStr:
